@@ -919,6 +919,9 @@ class ComposerBinary(ComposerBase):
         return mpint_bytes
 
     def compose_mpint(self, value, length):
+        if (value >= 0 and value >> (8 * length)) or (value < 0 and value < -(1 << (8 * length - 1))):
+            raise InvalidValue(length, type(self), 'mpint_length')
+
         mpint_bytes = self._compose_mpint(value, length, self.byte_order)
         if length < len(mpint_bytes):
             raise InvalidValue(length, type(self), 'mpint_length')
